@@ -797,19 +797,58 @@ func (e *OwnEngine) model(fn *ssa.Function, call *ssa.Call, callee *ssa.Function
 // modelSort: sort.Stable(x) calls x.Len, x.Less, x.Swap.
 func (e *OwnEngine) modelSort(fn *ssa.Function, call *ssa.Call, arg ssa.Value) {
 	c := e.c
-	mi, ok := arg.(*ssa.MakeInterface)
+	if mi, ok := arg.(*ssa.MakeInterface); ok {
+		e.modelSortOn(fn, call, mi.X.Type(), e.valSet(mi.X))
+		return
+	}
+	// the sort.Interface value was boxed elsewhere: every type the library boxes
+	// into this interface may be behind it (an over-approximation)
+	iface, ok := arg.Type().Underlying().(*types.Interface)
 	if !ok {
 		e.unknown["sort on a value whose concrete type is not visible in "+fname(fn)] = call.Pos()
 		return
 	}
-	T := mi.X.Type()
+	seen := map[string]bool{}
+	n := 0
+	for _, g := range e.funcs {
+		for _, b := range g.Blocks {
+			for _, in := range b.Instrs {
+				mi, ok := in.(*ssa.MakeInterface)
+				if !ok || !types.Implements(mi.X.Type(), iface) {
+					continue
+				}
+				if _, isIface := mi.Type().Underlying().(*types.Interface); !isIface {
+					continue
+				}
+				k := mi.X.Type().String()
+				if seen[k] {
+					continue
+				}
+				seen[k] = true
+				n++
+				// the boxed value: what the interface value points to, and through it
+				vs := LocSet{}
+				union(vs, e.valSet(arg))
+				e.modelSortOn(fn, call, mi.X.Type(), vs)
+			}
+		}
+	}
+	if n == 0 {
+		e.unknown["sort on a value whose concrete type is not visible in "+fname(fn)] = call.Pos()
+	}
+	_ = c
+}
+
+// modelSortOn: sort.Stable/Sort on a value of concrete type T held in vs.
+func (e *OwnEngine) modelSortOn(fn *ssa.Function, call *ssa.Call, T types.Type, vs LocSet) {
+	c := e.c
 	named := T
 	if p, ok := T.(*types.Pointer); ok {
 		named = p.Elem()
 	}
 	if n, ok := named.(*types.Named); ok && n.Obj().Pkg() != nil && n.Obj().Pkg().Path() == "sort" {
 		// sort.Float64Slice / StringSlice / IntSlice: Swap writes the elements
-		for l := range elemLocs(e.valSet(mi.X)) {
+		for l := range elemLocs(vs) {
 			e.recordWrite(call, l, "sort of a "+n.Obj().Name()+" reorders its elements")
 		}
 		return
@@ -837,7 +876,7 @@ func (e *OwnEngine) modelSort(fn *ssa.Function, call *ssa.Call, arg ssa.Value) {
 			}
 			found++
 			e.addCall(fn, f)
-			e.flow(e.P(f.Params[0]), e.valSet(mi.X))
+			e.flow(e.P(f.Params[0]), vs)
 		}
 	}
 	if found < 3 {
